@@ -154,14 +154,15 @@ func decode(encoded encodedMessage) (messageWithHeader, error) {
 }
 
 func (c *Conversation) receiveDecoded(message messageWithHeader) (plain MessagePlaintext, toSend []messageWithHeader, err error) {
-	versionBefore, theirTagBefore, msgStateBefore := c.version, c.theirInstanceTag, c.msgState
-	rejectedData := false
+	versionBefore, keyBefore, theirTagBefore, msgStateBefore := c.version, c.ourCurrentKey, c.theirInstanceTag, c.msgState
+	rejectedData := false // (or an ignored key exchange message)
 	defer func() {
 		if err != nil || rejectedData {
 			// a message that is rejected neither commits the conversation to its protocol version nor
 			// binds it to the instance it names
 			if versionBefore == nil {
 				c.version = nil
+				c.ourCurrentKey = keyBefore
 			}
 			c.theirInstanceTag = theirTagBefore
 		}
@@ -184,8 +185,20 @@ func (c *Conversation) receiveDecoded(message messageWithHeader) (plain MessageP
 		rejectedData = msgStateBefore != encrypted
 		return c.receiveDataMessage(messageHeader, messageBody)
 	default:
-		return c.receiveAKEMessage(msgType, messageBody)
+		stateBefore := c.authStateIdentity()
+		plain, toSend, err = c.receiveAKEMessage(msgType, messageBody)
+		// a key exchange message that is not expected in the current state is ignored: no reply, no
+		// step of the exchange - and, like a rejected one, no commitment to its version or sender
+		rejectedData = err == nil && len(toSend) == 0 && c.authStateIdentity() == stateBefore
+		return
 	}
+}
+
+func (c *Conversation) authStateIdentity() int {
+	if c.ake == nil {
+		return authStateNone{}.identity()
+	}
+	return c.ake.state.identity()
 }
 
 func (c *Conversation) receiveAKEMessage(msgType byte, messageBody []byte) (plain MessagePlaintext, toSend []messageWithHeader, err error) {
